@@ -42,6 +42,11 @@ CLAIMS["C20"] = ("write-effect analysis (field/global writes with fresh-object t
  "Trusted: go/ssa + go/types, CHA as a sound over-approximation of calls, the Go memory model (no write, no race). Not covered: actual schedules, races inside dependencies or user callbacks, node storage (C11), per-walk state by contract (Budget, SeenLinks).",
  "DESIGN.md section 3, C20")
 
+CLAIMS["C19"] = ("global-write effect analysis over the CHA closure of Wrap/Prototype/Unwrap + must-pass-through (verification, Overflow tests) + value provenance (Unwrap)",
+ "Structural necessary conditions of 'binding is faithful and pure': nothing reachable from Wrap/Prototype/Unwrap writes a package-level variable outside init (no state left behind by a binding call); every normal return of Wrap/Prototype passes verifyCompatibility or an inference function; every reflect SetInt/SetUint in bindnode is behind the matching Overflow test on the same destination and operand; Unwrap returns the address of the node's own value. Not the faithfulness of the reflection walk, not marshal round trips.",
+ "Trusted: go/ssa + go/types + CHA, package reflect. Not covered: reflection-walk faithfulness for arbitrary Go values, Marshal/Unmarshal round trip, float32 narrowing.",
+ "DESIGN.md section 3, C19")
+
 NOT_APPLICABLE = {
  "C13": "concerns the output of running the code generator on arbitrary schemas and the run-time equivalence of two engines; the generator's logic lives in text/template strings, so no typed program exists to analyse before execution (DESIGN.md section 4)",
 }
